@@ -6,6 +6,7 @@ CONSTANTS
   InitWin = 1
   ConnWin = 2
   MaxCredit = 5
+  Faults = {"rst", "close"}
   Dev <- NoDev
 INVARIANT TypeOK
 INVARIANT WindowRespected
